@@ -3,7 +3,7 @@
 use crate::common::*;
 use des::net::module::Module;
 use des::prelude::*;
-use des::time::{interval, sleep, timeout, MissedTickBehavior};
+use des::time::{interval, interval_at, sleep, sleep_until, timeout, timeout_at, MissedTickBehavior};
 use serde_json::{json, Value};
 use std::cell::RefCell;
 use std::future::Future;
@@ -68,18 +68,33 @@ async fn run_task(task: usize, prog: Vec<Value>, mut io: TaskIo, inc: u32) {
         let da = tick() * a as u32;
         let db = tick() * b as u32;
         let res: Value = match s["k"].as_str().unwrap() {
+            // odd tasks use the absolute-deadline variants of the API (sleep_until / timeout_at): same contract
             "sleep" => {
-                sleep(da).await;
-                json!("ok")
+                let start = SimTime::now();
+                let sl = if task % 2 == 1 { sleep_until(start + da) } else { sleep(da) };
+                tokio::pin!(sl);
+                let before = (sl.deadline() == start + da, sl.is_elapsed() == (a == 0));
+                sl.as_mut().await;
+                if before == (true, true) && sl.is_elapsed() && sl.deadline() == start + da {
+                    json!("ok")
+                } else {
+                    json!("Sleep::deadline / is_elapsed disagree with the requested deadline")
+                }
             }
-            "tosleep" => match timeout(da, sleep(db)).await {
-                Ok(()) => json!("ok"),
-                Err(_) => json!("elapsed"),
-            },
-            "tonever" => match timeout(da, std::future::pending::<()>()).await {
-                Ok(()) => json!("ok"),
-                Err(_) => json!("elapsed"),
-            },
+            "tosleep" => {
+                let r = if task % 2 == 1 { timeout_at(SimTime::now() + da, sleep_until(SimTime::now() + db)).await } else { timeout(da, sleep(db)).await };
+                match r {
+                    Ok(()) => json!("ok"),
+                    Err(_) => json!("elapsed"),
+                }
+            }
+            "tonever" => {
+                let r = if task % 2 == 1 { timeout_at(SimTime::now() + da, std::future::pending::<()>()).await } else { timeout(da, std::future::pending::<()>()).await };
+                match r {
+                    Ok(()) => json!("ok"),
+                    Err(_) => json!("elapsed"),
+                }
+            }
             "torecv" => {
                 let (_, rx) = io.rx.as_mut().expect("task has a receiver");
                 match timeout(da, rx.recv()).await {
@@ -122,13 +137,20 @@ async fn run_task(task: usize, prog: Vec<Value>, mut io: TaskIo, inc: u32) {
                 json!("ok")
             }
             "ivlnew" => {
-                let mut iv = interval(da);
-                iv.set_missed_tick_behavior(match s["m"].as_str().unwrap() {
-                    "delay" => MissedTickBehavior::Delay,
-                    "skip" => MissedTickBehavior::Skip,
-                    _ => MissedTickBehavior::Burst,
-                });
+                // b = 0: interval(period); b > 0: interval_at(now + b, period)
+                let mut iv = if b == 0 { interval(da) } else { interval_at(SimTime::now() + db, da) };
+                let (mode, name) = match s["m"].as_str().unwrap() {
+                    "delay" => (MissedTickBehavior::Delay, "delay"),
+                    "skip" => (MissedTickBehavior::Skip, "skip"),
+                    _ => (MissedTickBehavior::Burst, "burst"),
+                };
+                iv.set_missed_tick_behavior(mode);
+                let ok = iv.period() == da && iv.missed_tick_behavior() == mode;
                 ivl = Some(iv);
+                if ok { json!("ok") } else { json!(format!("accessors disagree: period / missed_tick_behavior ({name})")) }
+            }
+            "ivlreset" => {
+                ivl.as_mut().expect("interval exists").reset();
                 json!("ok")
             }
             "tick" => {
